@@ -311,13 +311,18 @@ mutual
   def parseListItems : Nat → P ExprList
     | 0 => fail PErr.fuelOut
     | fuel + 1 => do
-      let e ← parseExpr fuel 0
-      let nxt ← next
-      if nxt.typ == .tRightBracket then pure (ExprList.cons e ExprList.nil)
-      else if nxt.typ != .tComma then unexpected nxt
-      else do
-        let r ← parseListItems fuel
-        pure (ExprList.cons e r)
+      let pk ← peek
+      if pk.typ == .tRightBracket then      -- trailing comma
+        let _ ← next
+        pure ExprList.nil
+      else
+        let e ← parseExpr fuel 0
+        let nxt ← next
+        if nxt.typ == .tRightBracket then pure (ExprList.cons e ExprList.nil)
+        else if nxt.typ != .tComma then unexpected nxt
+        else do
+          let r ← parseListItems fuel
+          pure (ExprList.cons e r)
 
   /-- the loop of `parseMapLiteral` (":" after `key` has just been read) -/
   def parseMapItems : Nat → Bytes → MapItems → P MapItems
@@ -329,12 +334,17 @@ mutual
       if nxt.typ == .tRightBracket then pure items
       else if nxt.typ != .tComma then unexpected nxt
       else do
-        let tok ← expect .tString
-        match Quote.unquoteString tok.val with
-        | some k => do
-          let _ ← expect .tColon
-          parseMapItems fuel k items
-        | none => errorf
+        let pk ← peek
+        if pk.typ == .tRightBracket then    -- trailing comma
+          let _ ← next
+          pure items
+        else
+          let tok ← expect .tString
+          match Quote.unquoteString tok.val with
+          | some k => do
+            let _ ← expect .tColon
+            parseMapItems fuel k items
+          | none => errorf
 
   /-- `parseTernary`: "?" has been read, `cond` is given -/
   def parseTernary : Nat → Expr → P Expr
@@ -343,12 +353,7 @@ mutual
       let n1 ← parseExpr fuel 0
       let _ ← expect .tColon
       let n2 ← parseExpr fuel 0
-      let result := Expr.tern cond.pos cond n1 n2
-      let pk ← peek
-      if pk.typ == .tColon then
-        let _ ← next
-        parseTernary fuel result
-      else pure result
+      pure (Expr.tern cond.pos cond n1 n2)
 
   /-- `newGlobalNode`: dotted name -/
   def newGlobalNode : Nat → Nat → Bytes → Item → P Expr
